@@ -4,6 +4,7 @@ use crate::prng::Rng;
 use crate::rt::{Cfg, Policy};
 use serde_json::{json, Value};
 
+pub mod locks;
 pub mod parallel;
 pub mod pathstack;
 pub mod pktline;
@@ -12,7 +13,7 @@ pub mod selftest;
 pub mod zstream;
 
 pub fn all() -> Vec<&'static dyn Scenario> {
-    vec![&selftest::SelfTest, &parallel::Parallel, &refstore::RefStore, &pktline::PktLine, &pathstack::PathStack, &zstream::ZStream]
+    vec![&selftest::SelfTest, &parallel::Parallel, &refstore::RefStore, &pktline::PktLine, &pathstack::PathStack, &zstream::ZStream, &locks::Locks]
 }
 
 /// Which scenario decides a property.
